@@ -219,6 +219,25 @@ Definition parse_args (extra : bool) (ps : list param) (args : list value) (kw :
       end
   end.
 
+(* Document.bodycontent.add_param + Binding.mkparam for simple values: what one
+   callback appends to the request.  Undefined members of a choice are skipped
+   by add_param; the literal marshaller skips an optional parameter without a
+   value and writes an empty element for a required one. *)
+Definition opt_of (ps : list param) (n : nat) : bool :=
+  match find (fun p => Nat.eqb (pname p) n) ps with Some p => popt p | None => false end.
+
+Definition body_item (ps : list param) (c : call) : list (nat * value) :=
+  match snd c with
+  | Some _ => [(fst (fst c), snd c)]
+  | None => if snd (fst c) || opt_of ps (fst (fst c)) then [] else [(fst (fst c), None)]
+  end.
+
+Definition body_of (ps : list param) (log : list call) : list (nat * value) :=
+  flat_map (body_item ps) log.
+
+Definition valued_item (x : nat * value) : bool :=
+  match snd x with Some _ => true | None => false end.
+
 (* rendering details of the positional message, as functions of the counts *)
 Definition pos_has_range (r a : nat) : bool := negb (Nat.eqb r a).
 Definition pos_plural (r a : nat) : bool := negb (Nat.eqb r a) || negb (Nat.eqb r 1).
@@ -429,8 +448,12 @@ Record ccase := mkCC {
   cc_params : list param;            (* read back from Document.param_defs *)
   cc_args : list value;
   cc_kw : list (nat * value);
-  cc_res : cres
+  cc_res : cres;
+  cc_body : list (nat * value)       (* sent: (name, text) of the wrapper's children, None = empty element *)
 }.
+
+Definition item_eqb (x y : nat * value) : bool :=
+  Nat.eqb (fst x) (fst y) && value_eqb (snd x) (snd y).
 
 Definition same_class (r : res) (c : cres) : bool :=
   match c with
@@ -439,13 +462,24 @@ Definition same_class (r : res) (c : cres) : bool :=
   end.
 
 Definition client_agrees (c : ccase) : bool :=
-  same_class (fst (parse_args (cc_extra c) (cc_params c) (cc_args c) (cc_kw c))) (cc_res c).
+  let '(r, lg) := parse_args (cc_extra c) (cc_params c) (cc_args c) (cc_kw c) in
+  same_class r (cc_res c)
+  && match cc_res c with
+     | CSent => list_eqb item_eqb (body_of (cc_params c) lg) (cc_body c)
+     | CErr _ => true
+     end.
 
 Definition client_spec_ok (c : ccase) : bool :=
   wf (cc_tree c) && kw_distinct (cc_kw c)
   && list_eqb param_eqb (flatten [] (cc_tree c)) (cc_params c)
   && match cc_res c with
-     | CSent => negb (cc_extra c) || negb (must_reject (cc_tree c) (cc_args c) (cc_kw c))
+     | CSent =>
+         (negb (cc_extra c) || negb (must_reject (cc_tree c) (cc_args c) (cc_kw c)))
+         (* a call with nothing to reject carries exactly its bound values, in
+            parameter order *)
+         && (must_reject (cc_tree c) (cc_args c) (cc_kw c)
+             || list_eqb item_eqb (filter valued_item (cc_body c))
+                  (filter valued_item (bind (names (cc_tree c)) (cc_args c) (cc_kw c))))
      | CErr r => negb (is_ok r)
                  && spec_res_ok (cc_extra c) (cc_tree c) (cc_args c) (cc_kw c) r
      end.
